@@ -100,7 +100,7 @@ end ZV.P14
 /-! ### The hypotheses are satisfiable; the generated code runs -/
 namespace ZV.P14
 open ZV ZV.Std ZV.Stoch
-local instance : Transc ℚ := ⟨id, id, id⟩
+local instance transcRatC14Gen : Transc ℚ := ⟨id, id, id⟩
 
 def exCondG : List (Nat → Bool) := [fun i => i < 3, fun i => 3 ≤ i]
 def exPsG : List ℚ := [1/4, 2/3]
